@@ -355,7 +355,22 @@ func parent(ck *Check, tier string, seed int64, verifDir string, workers int, bu
 			stdout, stderr := &tailBuf{max: 1 << 16}, &tailBuf{max: 1 << 16}
 			cmd.Stdout = stdout
 			cmd.Stderr = stderr
-			err := cmd.Run()
+			// hard stop well after the time guard: a worker that hangs (e.g. a real lock held across a
+			// scheduling point in code the shim does not cover) must not hang the check
+			if err := cmd.Start(); err != nil {
+				errs[k] = fmt.Sprintf("worker %d: %v", k, err)
+				return
+			}
+			done := make(chan error, 1)
+			go func() { done <- cmd.Wait() }()
+			var err error
+			select {
+			case err = <-done:
+			case <-time.After(time.Until(deadline) + 3*time.Minute):
+				cmd.Process.Kill()
+				<-done
+				err = fmt.Errorf("killed: still running 3 minutes after the time guard")
+			}
 			if err != nil {
 				errs[k] = fmt.Sprintf("worker %d: %v\n%s", k, err, tail(stderr.String(), 4000))
 				return
